@@ -95,10 +95,45 @@ def clamps(ctx, rid="C12.R1"):
             got = set((o.env.get("self.limit_request_fields"), o.env.get("self.limit_request_field_size"), o.env.get("self.max_buffer_headers")) for o in outs)
             wf = spec.MAX_HEADERS if (nf <= 0 or nf > spec.MAX_HEADERS) else nf
             ws = spec.DEFAULT_MAX_HEADERFIELD_SIZE if fs < 0 else fs
-            wb = wf * ((ws or spec.DEFAULT_MAX_HEADERFIELD_SIZE) + 2) + 4
+            # (the header-block buffer cap is internal: for a finite field size it is fields * (size + 2) + 4; what it has to be
+            # when the field size is unlimited is judged by its effect, below)
+            wb = wf * (ws + 2) + 4 if ws else None
             rows.append({"limit_request_fields": nf, "limit_request_field_size": fs, "effective": sorted(map(str, got)), "required": [wf, ws, wb]})
-            ctx.check(rid, got == {(wf, ws, wb)}, key(fm, "clamp-fields|%s|%s" % (nf, fs)), site(fm, text="limit_request_fields=%s limit_request_field_size=%s" % (nf, fs)),
-                      "effective (fields, field size, header buffer cap) = %s, documented: %s" % (sorted(map(str, got)), (wf, ws, wb)), "-> %s" % ((wf, ws, wb),))
+            ctx.check(rid, len(got) == 1 and all(g_[0] == wf and g_[1] == ws and (wb is None or g_[2] == wb) for g_ in got), key(fm, "clamp-fields|%s|%s" % (nf, fs)),
+                      site(fm, text="limit_request_fields=%s limit_request_field_size=%s" % (nf, fs)),
+                      "effective (fields, field size, header buffer cap) = %s, documented: %s" % (sorted(map(str, got)), (wf, ws, wb if wb is not None else "no cap")), "-> %s" % ((wf, ws, wb),))
+            # the cap at work: the header loop of Request.parse on a buffer of L bytes without the terminator, with the effective
+            # values just computed. A finite field size bounds the block (rejected once it exceeds the cap by more than one read);
+            # limit_request_field_size = 0 is documented as "unlimited header field sizes": no size of block is rejected
+            if nf in (1, 100, 32768) and len(got) == 1:
+                eff = list(got)[0]
+                fp = repo.func(MSG + ".Request.parse")
+                gp = fp.cfg
+                rd = [nd for w_ in walk_own(fp.node) if isinstance(w_, ast.While) for st_ in w_.body for c_ in ast.walk(st_) if is_read_call(repo, fp, c_) for nd in nodes_with(fp, c_)]
+                rd = [x for x in rd if any("max_buffer_headers" in norm(t_.ast) for t_ in gp.tests())]
+                if rd:
+                    def at(e):
+                        if isinstance(e, ast.Call) and isinstance(e.func, ast.Attribute) and e.func.attr == "find":
+                            return "IDX"
+                        if isinstance(e, ast.Call) and isinstance(e.func, ast.Name) and e.func.id == "len":
+                            return "LEN"
+                        return None
+                    for L in ((10 ** 9,) if not ws else ((wb or 0) + 20000,)):
+                        outs = []
+                        capn = [x for x in gp.stmts(ast.Raise) if x.raised and x.raised.rsplit(".", 1)[-1].startswith("Limit")]
+                        for b_, l_ in rd[0].out:
+                            if l_ != "exc":
+                                outs += Explorer(fp, atom_of=at).run(b_, {"IDX": -1, "LEN": L, "self.max_buffer_headers": eff[2], "self.limit_request_fields": eff[0], "self.limit_request_field_size": eff[1]},
+                                                                     stop=lambda x: x in rd, watch={x.id: "cap" for x in capn})
+                        # (outcomes that leave the loop because the block turned out complete, or the peer hung up, are not
+                        # verdicts on its size)
+                        kinds = set("reject" if "cap" in o.events else "read-more" for o in outs if "cap" in o.events or o.kind == "stop")
+                        want_k = {"read-more"} if not ws else {"reject"}
+                        ctx.check(rid, kinds == want_k, key(fm, "header-cap-policy|%s|%s" % (nf, fs)), site(fp, text="limit_request_fields=%s limit_request_field_size=%s, %s bytes of header block buffered" % (nf, fs, L)),
+                                  "with limit_request_field_size=%s (%s) a header block of %s bytes so far is %s, required %s%s" % (
+                                      fs, "unlimited" if not ws else "finite", L, sorted(kinds), sorted(want_k),
+                                      ": the buffer cap silently falls back to the default field size, large fields the setting allows are rejected with 431" if not ws else ": buffering is unbounded"),
+                                  "-> %s" % sorted(want_k))
     ctx.table(rid + " clamps", rows)
 
 
